@@ -554,6 +554,12 @@ func buildSetEvents(id string, task *Task, updates map[string]string, agentID st
 		if !isEpic(task) {
 			if claimValue == "" {
 				// Clear claim
+				// Without a state change the current state must tolerate having no claim.
+				if _, hasState := remainingUpdates["state"]; !hasState {
+					if err := validateClaimInvariant(task.State, ""); err != nil {
+						return nil, nil, err
+					}
+				}
 				event, err := newEvent("unclaim", now, UnclaimEvent{
 					ID: id,
 					TS: formatTime(now),
@@ -615,6 +621,10 @@ func buildSetEvents(id string, task *Task, updates map[string]string, agentID st
 
 	// If claim was set to a non-empty value and state wasn't explicitly set, default to doing
 	if claimWasSet && claimValue != "" && !stateWasSet {
+		// The implied transition is subject to the same rules as an explicit one.
+		if err := validateTransition(task.State, stateDoing); err != nil {
+			return nil, nil, err
+		}
 		event, err := newEvent("state", now, StateEvent{
 			ID:       id,
 			NewState: stateDoing,
